@@ -157,10 +157,25 @@ static void do_setup(char *p) {
   if (mainT) { hwloc_topology_destroy(mainT); mainT = NULL; nlive--; }
   hwloc_topology_init(&mainT); nlive++;
   while (*p == ' ') p++;
-  if (kind && !strcmp(kind, "synthetic")) r1 = hwloc_topology_set_synthetic(mainT, p); else r1 = hwloc_topology_set_xml(mainT, p);
+  /* kind = synthetic | xml, optionally followed by +bound (loaded with RESTRICT_TO_CPUBINDING|IS_THISSYSTEM while the process is bound to
+   * two processors: the load itself restricts) and / or +dup (the shared topology is a hwloc_topology_dup() of the loaded one) */
+  {
+  int bound = kind && strstr(kind, "+bound") != NULL, dup = kind && strstr(kind, "+dup") != NULL; cpu_set_t old, two; int haveold = 0, c, k = 0;
+  if (kind && !strncmp(kind, "synthetic", 9)) r1 = hwloc_topology_set_synthetic(mainT, p); else r1 = hwloc_topology_set_xml(mainT, p);
   hwloc_topology_set_all_types_filter(mainT, HWLOC_TYPE_FILTER_KEEP_ALL);
+  if (bound) {
+    haveold = !sched_getaffinity(0, sizeof old, &old);
+    CPU_ZERO(&two); for (c = 0; haveold && c < CPU_SETSIZE && k < 2; c++) if (CPU_ISSET(c, &old)) { CPU_SET(c, &two); k++; }
+    if (k) sched_setaffinity(0, sizeof two, &two);
+    setenv("HWLOC_THISSYSTEM", "1", 1);
+    hwloc_topology_set_flags(mainT, HWLOC_TOPOLOGY_FLAG_RESTRICT_TO_CPUBINDING | HWLOC_TOPOLOGY_FLAG_IS_THISSYSTEM);
+  }
   if (!r1) r2 = hwloc_topology_load(mainT);
-  if (!r2) annotate(mainT);
+  if (bound) { unsetenv("HWLOC_THISSYSTEM"); if (haveold) sched_setaffinity(0, sizeof old, &old); }
+  /* the documented discipline: a phase of modifications ends with hwloc_topology_refresh(); from then on no consulting call may write */
+  if (!r2) { annotate(mainT); hwloc_topology_refresh(mainT); }
+  if (!r2 && dup) { hwloc_topology_t d = NULL; if (!hwloc_topology_dup(&d, mainT)) { hwloc_topology_destroy(mainT); mainT = d; } }
+  }
   out("{\"e\":\"setup\",\"kind\":\"%s\",\"arg\":", kind ? kind : ""); out_jstr(p); out(",\"set\":%d,\"load\":%d}", r1, r2); out_end();
   if (r2) { hwloc_topology_destroy(mainT); mainT = NULL; nlive--; }
 }
@@ -175,8 +190,13 @@ static void modify_main(void) {
 /* ---------- phase A: shared-memory adopted, read-only copy ---------- */
 static void do_adopted(void) {
   size_t len = 0; char path[] = "/var/tmp/hwv_shm_XXXXXX"; int fd, r1 = -1, r2 = -1; void *addr; hwloc_topology_t ad = NULL; uint64_t hm = 0, ha = 0;
+  unsigned w0;
   if (!mainT) return;
-  hm = battery(mainT, 0xff);
+  { unsigned k0 = ntev[0], k;                     /* hook events of the main thread so far */
+    hm = battery(mainT, 0xff);                   /* the very first consulting calls on the shared topology */
+    /* writes of the topology's own caches (the process-wide environment caches are legitimately filled by the first call that needs them) */
+    for (w0 = 0, k = k0; k < ntev[0] && k < MAXEV; k++) if (!strcmp(tev[0][k].name, "dist_refresh_write") || !strcmp(tev[0][k].name, "memattr_refresh_write")) w0++;
+  }
   hwloc_shmem_topology_get_length(mainT, &len, 0);
   fd = mkstemp(path);
   addr = mmap(NULL, len + (1u << 20), PROT_NONE, MAP_PRIVATE | MAP_ANONYMOUS, -1, 0);     /* find a free range */
@@ -188,7 +208,7 @@ static void do_adopted(void) {
     if (!r2) { ha = battery(ad, 0xff); hwloc_topology_destroy(ad); nlive--; }     /* any write to the PROT_READ mapping is a crash */
   }
   if (fd >= 0) { close(fd); unlink(path); }
-  out("{\"e\":\"adopted\",\"write\":%d,\"adopt\":%d,\"main\":", r1, r2); out_digest(hm); out(",\"digest\":"); out_digest(ha); out("}"); out_end();
+  out("{\"e\":\"adopted\",\"write\":%d,\"adopt\":%d,\"prewrites\":%u,\"main\":", r1, r2, w0); out_digest(hm); out(",\"digest\":"); out_digest(ha); out("}"); out_end();
 }
 
 /* ---------- phase B: concurrent readers ---------- */
